@@ -940,3 +940,78 @@ def resolver(fn, stop=()):
         return T().visit(copy.deepcopy(expr))
     r.single = single
     return r
+
+
+def desugar_reductions(fn):
+    """Copy of fn in which an accumulator loop
+
+        X = INIT;  for v in IT:  X = min(X, E(v))        (or max; either argument order)
+
+    reads  X = min(E(v) for v in IT)  when INIT is the identity of the reduction (inf for min; -inf, or 0 for quantities that are
+    positive, for max), and a loop statement that merely overwrites  X = E(v)  reads  X = __last__(E(v) for v in IT): the value the
+    *last* element gives.  Only loops whose whole body consists of such statements over distinct names are rewritten."""
+    new = copy.deepcopy(fn)
+
+    def is_inf(e, neg=False):
+        t = norm(e).replace(' ', '')
+        pos = t in ('np.inf', 'numpy.inf', 'math.inf', 'inf', "float('inf')", 'INFINITY', 'np.Inf')
+        ng = t in ('-np.inf', '-numpy.inf', '-math.inf', '-inf', "float('-inf')", "-float('inf')", '-INFINITY')
+        return ng if neg else pos
+
+    def rewrite(block):
+        out = []
+        for st in block:
+            for f in ('body', 'orelse', 'finalbody'):
+                b = getattr(st, f, None)
+                if isinstance(b, list) and b and isinstance(b[0], ast.stmt):
+                    setattr(st, f, rewrite(b))
+            if isinstance(st, ast.For) and isinstance(st.target, ast.Name) and not st.orelse:
+                v = st.target.id
+                plan, ok = [], True
+                names = set()
+                for q in st.body:
+                    if not (isinstance(q, ast.Assign) and len(q.targets) == 1 and isinstance(q.targets[0], ast.Name)):
+                        ok = False
+                        break
+                    x = q.targets[0].id
+                    if x in names or x == v:
+                        ok = False
+                        break
+                    names.add(x)
+                    val = q.value
+                    kind, elem = 'last', val
+                    if isinstance(val, ast.Call) and dotted(val.func) in ('min', 'max', 'fmin', 'fmax') and len(val.args) == 2 and not val.keywords:
+                        a, b = val.args
+                        if isinstance(a, ast.Name) and a.id == x:
+                            kind, elem = dotted(val.func)[-3:], b
+                        elif isinstance(b, ast.Name) and b.id == x:
+                            kind, elem = dotted(val.func)[-3:], a
+                    if any(isinstance(n_, ast.Name) and n_.id in names for n_ in ast.walk(elem)):
+                        ok = False                      # depends on an accumulator of the same loop
+                        break
+                    plan.append((x, kind, elem, q))
+                if ok and plan:
+                    # the initial values: the last top-level assignment to each accumulator before the loop, in this block
+                    inits = {}
+                    for prev in out:
+                        if isinstance(prev, ast.Assign) and len(prev.targets) == 1 and isinstance(prev.targets[0], ast.Name):
+                            inits[prev.targets[0].id] = prev
+                    good = True
+                    for x, kind, elem, q in plan:
+                        ini = inits.get(x)
+                        if kind == 'min' and not (ini is not None and is_inf(ini.value)):
+                            good = False
+                        if kind == 'max' and not (ini is not None and (is_inf(ini.value, neg=True) or norm(ini.value) in ('0', '0.0'))):
+                            good = False
+                    if good:
+                        for x, kind, elem, q in plan:
+                            gen = ast.GeneratorExp(elt=elem, generators=[ast.comprehension(target=ast.Name(id=v, ctx=ast.Store()), iter=st.iter, ifs=[], is_async=0)])
+                            call = ast.Call(func=ast.Name(id=kind if kind != 'last' else '__last__', ctx=ast.Load()), args=[gen], keywords=[])
+                            out = [o for o in out if o is not inits.get(x)]
+                            out.append(ast.copy_location(ast.Assign(targets=[ast.Name(id=x, ctx=ast.Store())], value=call), q))
+                        continue
+            out.append(st)
+        return out
+    new.body = rewrite(new.body)
+    ast.fix_missing_locations(new)
+    return new
